@@ -107,7 +107,7 @@ theorem inv_step (s : St) (st : Step) (h : Inv s) : Inv (step s st) := by
       have e : step s .trim = s := by simp only [step, hd]
       rw [e]; exact ⟨hex, hpre, hfit, htr⟩
     | some n =>
-      have e : step s .trim = { s with drop := none, entries := s.entries.drop n } := by
+      have e : step s .trim = { s with drop := none, entries := s.entries.drop n, lastPass := some s.now } := by
         simp only [step, hd]
       rw [e]
       have hsn : s.snap = none := by
